@@ -18,8 +18,9 @@ CONFIG = {
     "rule": "one run = synthetic ruleset (often with a Markov structure so quits can land inside a level; 20-600 guesses) x "
             "keyboard script of 0-4 events from {status, help, junk, quit, EOF, closed, lost stdin, EIO, undecodable, silent pipe} "
             "with triggers biased to pre-terminal/level boundaries x PCT schedule (who runs first, 0-3 step change points, 0-2 change "
-            "points anchored at the lines that set should_exit / poll liveness / pop / check the flag in the OMEN loop) x virtual cost "
-            "per guess (1us..0.2s, so sleep(0.1) spans 0..1e5 guesses) x new or resumed-inside-a-level session; thorough also "
+            "points anchored at the lines that set should_exit / poll liveness / pop / check the flag in the OMEN loop) or, 1 in 3, a "
+            "directed case ('q' at once, thread parked before setting the flag, released when main reaches a drawn labelled line for the n-th time) x virtual cost "
+            "per guess (1us..0.2s, so sleep(0.1) spans 0..1e5 guesses) x new session or (1 in 4) a session resumed after a stand-in quit inside a Markov level; thorough also "
             "enumerates the thread-death (EOF) point over every guess index of a world; oracle: no effective quit => stream == U; "
             "effective quit => prefix of U cut at a legal point not later than the pre-terminal (or next Markov guess) current when "
             "the flag was set, saved state resumes to exactly the rest (RefResume); non-trivial = the keyboard thread ran "
